@@ -356,7 +356,7 @@ def unit_escapes(U):
     forms = [lambda c: c, lambda c: "x" + c + "y", lambda c: c + "z", lambda c: "z" + c, lambda c: c + c,
              lambda c: "é" + c + "中", lambda c: "a b" + c + "c d", lambda c: c + "41", lambda c: "%" + c]
     if not U.thorough:
-        forms = forms[:5] + forms[7:8]
+        forms = [forms[0], forms[1], forms[4], forms[7]]
     pl = placements()
     for D in DIALECTS:
         chars = list(RESERVED) if not D.gtf else list("%&=") + ["\x01", "\x7f"]
@@ -536,7 +536,7 @@ def rand_extra(rng):
 
 def unit_random(U):
     ck = Checker()
-    N = 400000 if U.thorough else 40000
+    N = 400000 if U.thorough else 30000
     max_attrs, max_vals = (7, 5) if U.thorough else (5, 4)
     rng = U.rng
     for i in range(N):
